@@ -309,3 +309,53 @@ func c10Trusted(w *core.WorkerCtx) {
 	}
 	w.R.Count("c10_trusted_sealer_scenarios", 1)
 }
+
+// c10HeaviestTip: a peer gossips correctly sealed vertices whose weight is as large as the counter goes (2^64-1,
+// 2^64-2, 2^63): whatever weight the node's next own vertex gets, the sealing rules hold for it - the node's own wallet
+// still cannot issue through its own node, the genesis wallet cannot spend, an empty transaction is not sealed.
+func c10HeaviestTip(w *core.WorkerCtx) {
+	rng := core.Rand(w.Seed, "C10heavy", w.Batch)
+	desc := fmt.Sprintf("c10 forbidden proposals on top of tips of maximal weight seed=%d batch=%d", w.Seed, w.Batch)
+	w.Mark("%s", desc)
+	for _, heavy := range []uint64{^uint64(0), ^uint64(0) - 1, 1 << 63} {
+		world := ledger.NewWorld(rng, w.R, []string{"C10"}, allSnapOracles, desc)
+		if _, err := ledger.Setup(world, ledger.Profile{Nodes: 1, Users: 4, SupplyClass: 0, Delivery: "lockstep"}); err != nil {
+			w.R.Inconc("setup failed: " + err.Error())
+			world.Close()
+			return
+		}
+		n := world.Nodes[0]
+		u := world.Users
+		s := n.Prev
+		var tip ledger.H
+		for h := range s.Leaves {
+			tip = h
+		}
+		ht := world.NewTrx(u[0], u[1].Addr, spice.Melange{}, []byte("carried by a vertex of maximal weight"))
+		hv := ledger.ForgeVertex(world.Sealers[0], ht, tip, tip, heavy, world.Now())
+		herr := world.Deliver(n, &hv, "vertex of maximal weight")
+		for round := 0; round < 3; round++ {
+			var t transaction.Transaction
+			rule := []string{"self-sealed", "genesis-wallet-spends", "empty-transaction"}[round]
+			switch rule {
+			case "self-sealed":
+				t = world.NewTrx(n.Actor, u[1].Addr, spice.Melange{}, []byte("the node's own wallet through its own node"))
+			case "genesis-wallet-spends":
+				t = world.NewTrx(n.Actor, u[1].Addr, spice.Melange{Currency: 1}, nil)
+			default:
+				t = world.NewTrx(u[1], u[2].Addr, spice.Melange{}, nil)
+			}
+			v, err := world.Propose(n, &t, "forbidden proposal on a tip of maximal weight: "+rule)
+			world.EvalFor("C10", 1)
+			world.NontrivFor("C10", fmt.Sprintf("heaviest-tip/w%d/%s/heavy-admitted=%v/refused=%v", heavy>>60, rule, herr == nil, err != nil))
+			if err == nil {
+				world.Violate("C10", "accepted/"+rule+"/after-heaviest-tip", fmt.Sprintf("with a tip of weight %d in the ledger the node sealed a %s transaction (vertex %s, weight %d)", heavy, rule, ledger.Hex(v.Hash), v.Weight))
+			}
+			// an ordinary proposal in between (its weight wraps around)
+			m := world.NewTrx(u[0], u[1].Addr, spice.Melange{}, []byte("ordinary"))
+			world.Propose(n, &m, "ordinary proposal")
+		}
+		world.Close()
+	}
+	w.R.Count("c10_heaviest_tip_scenarios", 3)
+}
